@@ -294,7 +294,7 @@ pub fn gen_case(ctx: &mut Ctx, it: u64, jets: bool) -> Option<Case> {
 
 /// data-movement programs (see `gen::layout_plan`): all copy lengths at all frame offsets
 pub fn run_layout(ctx: &mut Ctx, marks: bool) {
-    let n = ctx.scale(3000, 60_000);
+    let n = ctx.scale(12_000, 120_000);
     let mut done = 0;
     for it in 0..20 * n {
         if done >= n {
